@@ -34,7 +34,7 @@ Lemma Gen_plugin_map_fields :
 Proof. vm_compute. reflexivity. Qed.
 
 (* every other localizing call of localizeNativeFields, in source order (model: the sequence in
-   [localize]; the two helm calls are outside the model and must stay the only ones that are) *)
+   [localize], including the two helm calls) *)
 Lemma Gen_native_calls :
   gen_native_calls =
   [("localizeFile", "path");
@@ -48,8 +48,7 @@ Lemma Gen_native_calls :
    ("localizeFile", "replacement.Path")].
 Proof. vm_compute. reflexivity. Qed.
 
-(* the built-in plugin field specs (harness/c18.go pluginRefs implements this table; the helm rows are
-   outside the model) and the localizing function of each filter group (model: [loc_pref]) *)
+(* the built-in plugin field specs (harness/c18.go pluginRefs implements this table) and the localizing function of each filter group (model: [loc_pref]) *)
 Lemma Gen_plugin_specs :
   gen_plugin_specs =
   [("0", "ConfigMapGenerator", "env"); ("0", "ConfigMapGenerator", "envs");
@@ -66,7 +65,7 @@ Proof. vm_compute. split; reflexivity. Qed.
 
 (* the log.Fatalf / log.Panicf sites of the package.  Model: cleanedRelativePath #1 = XFatal,
    localizeRoot #1 = XPanic; the filepath.Rel sites cannot fire on cleaned absolute paths; the
-   others belong to remote targets and helm (outside the model).  A new site fails this obligation. *)
+   copyChartHome #1 = XPanic; the others belong to remote targets (outside the model).  A new site fails this obligation. *)
 Lemma Gen_fatal_sites :
   List.map (fun t => (fst (fst t), snd (fst t))) gen_fatal_sites =
   [("Run", "log.Panicf"); ("localizeRoot", "log.Panicf"); ("localizeRoot", "log.Panicf");
@@ -309,6 +308,77 @@ Proof.
   rewrite firstn_app, Nat.sub_diag, firstn_all. cbn. rewrite app_nil_r. reflexivity.
 Qed.
 
+(* ---- Walk listing ---- *)
+
+Lemma in_insert_str x y l : In x (insert_str y l) -> x = y \/ In x l.
+Proof.
+  induction l as [|z t IH]; cbn; intros H.
+  - destruct H as [<-|[]]; auto.
+  - destruct (String.eqb y z); auto.
+    destruct (String.ltb y z).
+    + destruct H as [<-|H]; auto.
+    + destruct H as [<-|H]; [right; left; auto|]. destruct (IH H) as [->|H']; auto.
+Qed.
+
+Lemma child_names_in s q name : In name (child_names s q) -> exists e, In (q ++ [name], e) s.
+Proof.
+  unfold child_names. induction s as [|[k e] s IH]; cbn; intros H; [contradiction|].
+  destruct (rev k) as [|nm drev] eqn:R.
+  - destruct (IH H) as [e' He']. eauto.
+  - destruct (cpath_eqb (rev drev) q) eqn:Eq.
+    + apply in_insert_str in H. destruct H as [->|H].
+      * apply cpath_eqb_eq in Eq. subst q. exists e. left.
+        f_equal. rewrite <- (rev_involutive k), R. reflexivity.
+      * destruct (IH H) as [e' He']. eauto.
+    + destruct (IH H) as [e' He']. eauto.
+Qed.
+
+(* every listed path is the start path extended by proper components *)
+Definition under (q : cpath) (e : string * bool) : Prop :=
+  exists r, good_path r = true /\ fst e = show_abs (q ++ r).
+
+Lemma walk_list_under s : fs_wf s -> forall fuel q, Forall (under q) (walk_list fuel s q).
+Proof.
+  intros W. induction fuel as [|fuel IH]; intros q; cbn [walk_list]; constructor.
+  - exists []. rewrite app_nil_r. auto.
+  - apply Forall_forall. intros e He. apply in_flat_map in He. destruct He as (name & Hn & He).
+    destruct (child_names_in _ _ _ Hn) as [e' Hin]. pose proof (W _ _ Hin) as G.
+    rewrite good_path_app in G. apply andb_prop in G. destruct G as [_ Gn].
+    destruct (lookup (q ++ [name]) s) as [[|c]|] eqn:L.
+    + pose proof (IH (q ++ [name])) as F. rewrite Forall_forall in F.
+      destruct (F _ He) as (r & Gr & Er). exists (name :: r). split.
+      * change (good_path ([name] ++ r) = true). rewrite good_path_app, Gn, Gr. reflexivity.
+      * rewrite Er, <- app_assoc. reflexivity.
+    + destruct He as [<-|[]]. exists [name]. split; auto.
+    + destruct He.
+Qed.
+
+Definition walk_lex (p : string) (l : list (string * bool)) : Prop :=
+  good_path (query_comps p) = true /\
+  Forall (fun e => exists r, good_path r = true /\ query_comps (fst e) = query_comps p ++ r) l.
+
+Lemma under_query q e : good_path q = true -> under q e ->
+  exists r, good_path r = true /\ query_comps (fst e) = q ++ r.
+Proof.
+  intros G (r & Gr & E). exists r. split; auto. rewrite E. apply query_show.
+  rewrite good_path_app, G, Gr. reflexivity.
+Qed.
+
+Lemma exec_walk s p s' l : fs_wf s -> exec (EWalk p) s = (s', RList l) -> walk_lex p l.
+Proof.
+  intros W. unfold exec. destruct (fs_find s p) as [|q [|c]| |] eqn:F; intros H;
+    try discriminate; injection H as <- <-.
+  - unfold walk_lex. rewrite (fs_find_root _ _ F). split; auto.
+    pose proof (walk_list_under s W (S (List.length s)) []) as U. cbn [walk_list] in U.
+    eapply Forall_impl; [|exact U]. intros e Ue. apply under_query; auto.
+  - pose proof (fs_find_good _ _ _ _ W F) as G. apply fs_find_node in F. destruct F as [-> _].
+    split; auto.
+    pose proof (walk_list_under s W (S (List.length s)) (query_comps p)) as U. cbn [walk_list] in U.
+    eapply Forall_impl; [|exact U]. intros e Ue. apply under_query; auto.
+  - pose proof (fs_find_good _ _ _ _ W F) as G. apply fs_find_node in F. destruct F as [-> _].
+    split; auto. constructor; auto. exists []. rewrite app_nil_r. split; auto. cbn [fst]. apply query_show; auto.
+Qed.
+
 (* ------------------------------------------------------------------ the safety invariant *)
 
 Section Safety.
@@ -386,11 +456,12 @@ Section Safety.
   (* ---- single steps ---- *)
 
   Definition read_only (e : eff) : bool :=
-    match e with EExists _ | EIsDir _ | ECleanedAbs _ | EReadFile _ => true | _ => false end.
+    match e with EExists _ | EIsDir _ | ECleanedAbs _ | EReadFile _ | EWalk _ => true | _ => false end.
 
   Lemma exec_read_only e s : read_only e = true -> fst (exec e s) = s.
   Proof.
     destruct e; try discriminate; intros _; cbn [exec]; try reflexivity.
+    - destruct (fs_find s p) as [|? [|?]| |]; reflexivity.
     - destruct (fs_find s p) as [|? [|?]| |]; reflexivity.
     - destruct (fs_find s p) as [|? [|?]| |]; reflexivity.
   Qed.
@@ -431,13 +502,34 @@ Section Safety.
     destruct (fallible (ECleanedAbs p) && fault_hit fault (w_n w))%bool.
     - inv E. eapply Hfail; eauto.
     - destruct (exec (ECleanedAbs p) (w_fs w)) as [s' r'] eqn:X. inv E.
-      destruct r.
+      destruct r;
+        try (cbn in X; destruct (fs_find (w_fs w) p) as [|? [|?]| |]; discriminate).
       + eapply Hfail; eauto.
-      + cbn in X. destruct (fs_find (w_fs w) p) as [|? [|?]| |]; discriminate.
-      + cbn in X. destruct (fs_find (w_fs w) p) as [|? [|?]| |]; discriminate.
       + eapply Hok; eauto. eapply exec_cleaned_abs; eauto.
-      + cbn in X. destruct (fs_find (w_fs w) p) as [|? [|?]| |]; discriminate.
-      + cbn in X. destruct (fs_find (w_fs w) p) as [|? [|?]| |]; discriminate.
+  Qed.
+
+  Lemma triple_walk {A} p (k : eres -> prog A) Q :
+    triple (k RFail) Q ->
+    (forall l, walk_lex p l -> triple (k (RList l)) Q) ->
+    triple (Op (EWalk p) k) Q.
+  Proof.
+    intros Hfail Hok ch fault w w' out I H.
+    rewrite run_op in H by discriminate.
+    destruct (step_world fault (EWalk p) w) as [w1 r] eqn:E.
+    pose proof (step_read_only fault (EWalk p) w eq_refl I) as [I1 _]. rewrite E in I1. cbn in I1.
+    unfold step_world in E. destruct I as (W & _ & _).
+    destruct (fallible (EWalk p) && fault_hit fault (w_n w))%bool.
+    - inv E. eapply Hfail; eauto.
+    - destruct (exec (EWalk p) (w_fs w)) as [s' r'] eqn:X. inv E.
+      destruct r;
+        try (cbn in X; destruct (fs_find (w_fs w) p) as [|? [|?]| |]; discriminate).
+      + eapply Hfail; eauto.
+      + eapply Hok; eauto. eapply exec_walk; eauto.
+  Qed.
+
+  Lemma triple_op_bool e : read_only e = true -> triple (op_bool e) (fun _ => True).
+  Proof.
+    intros R. unfold op_bool. apply triple_ro; auto. intros r; destruct r; apply triple_ret; auto.
   Qed.
 
   (* frame of mkdir -p towards a path inside newDir *)
@@ -722,12 +814,101 @@ Section Safety.
     intros [c|] _; [apply triple_loc_file; auto | apply triple_ret; auto].
   Qed.
 
+  Lemma triple_ldr_new lc path :
+    triple (ldr_new A lc path) (fun root => good_path root = true /\ is_prefix scope root = true).
+  Proof.
+    unfold ldr_new. destruct (String.eqb path ""); [apply triple_throw|].
+    eapply triple_bind; [apply triple_guard|]. intros _ _.
+    destruct (is_abs path); [apply triple_throw|].
+    eapply triple_bind; [apply triple_confirm_dir|]. intros root [G _].
+    destruct (cycle_with root (lc_root lc :: lc_anc lc)); [apply triple_throw|].
+    destruct (has_prefix_c root (a_scope A)) eqn:Hs; cbn [negb]; [|apply triple_throw].
+    destruct (has_prefix_c root (a_newdir A)); [apply triple_throw|].
+    apply triple_ret. split; auto.
+  Qed.
+
+  Lemma triple_copy_entries src dst : forall l,
+    good_path dst = true -> is_prefix nd dst = true ->
+    Forall (fun e => exists r, good_path r = true /\ query_comps (fst e) = src ++ r) l ->
+    triple (copy_entries src dst l) (fun _ => True).
+  Proof.
+    induction l as [|[p isdir] t IH]; intros Gd Pd F; cbn [copy_entries]; [apply triple_ret; auto|].
+    inv F. destruct H1 as (r & Gr & Er). cbn [fst] in Er.
+    rewrite Er, rel_comps_below. rewrite join_comps_normal by (apply good_path_normal; auto).
+    assert (In_nd : is_prefix nd (query_comps (show_abs (dst ++ r))) = true).
+    { rewrite query_show by (rewrite good_path_app, Gd, Gr; auto). apply is_prefix_app_r; auto. }
+    destruct isdir.
+    - eapply triple_mut; [right; left; reflexivity | exact In_nd |]. intros _. apply IH; auto.
+    - apply triple_ro; auto. intros r0. destruct r0; try apply triple_throw.
+      eapply triple_bind.
+      + eapply triple_op_unit; [right; right; eexists; reflexivity | exact In_nd].
+      + intros _ _. apply IH; auto.
+  Qed.
+
+  Lemma triple_copy_dir src dst :
+    good_path src = true -> good_path dst = true -> is_prefix nd dst = true ->
+    triple (copy_dir src dst) (fun _ => True).
+  Proof.
+    intros Gs Gd Pd. unfold copy_dir. apply triple_walk; [apply triple_throw|].
+    intros l [_ F]. rewrite query_show in F by auto. apply triple_copy_entries; auto.
+  Qed.
+
+  Lemma triple_copy_chart_home lc path clean :
+    lc_ok lc ->
+    (clean = false -> join_abs (lc_root lc) path = lc_root lc ++ ["charts"]) ->
+    triple (copy_chart_home A lc path clean) (fun _ => True).
+  Proof.
+    intros Hlc Hdef. pose proof Hlc as (r & G & Er & Ed). unfold copy_chart_home.
+    eapply triple_bind; [apply triple_op_bool; reflexivity|]. intros ex _.
+    destruct ex; cbn [negb]; [|apply triple_ret; auto].
+    eapply triple_bind; [apply triple_ldr_new|]. intros hroot [Gh Ps].
+    apply triple_cleaned_abs; [apply triple_throw|].
+    intros cleaned f [G' L]. destruct (String.eqb f "") eqn:Ef; cbn [negb]; [|apply triple_throw].
+    apply String.eqb_eq in Ef; subst.
+    destruct L as [[_ E']|[Gf _]]; [|discriminate].
+    rewrite query_show in E' by auto. subst cleaned.
+    destruct (is_prefix_inv _ _ Ps) as [r1 E1]. subst hroot.
+    assert (G1 : good_path r1 = true).
+    { rewrite good_path_app in Gh. apply andb_prop in Gh; tauto. }
+    assert (D : exists x, good_path x = true /\
+                join_comps (lc_dst lc)
+                  (if clean then rel_comps (lc_root lc) (scope ++ r1)
+                   else rel_comps (lc_root lc) (join_abs (lc_root lc) path)) = nd ++ x).
+    { destruct clean.
+      - exists r1. split; auto. rewrite Er, Ed. apply join_rel_mirror; apply good_path_normal; auto.
+      - exists (r ++ ["charts"]). split; [rewrite good_path_app, G; reflexivity|].
+        rewrite (Hdef eq_refl), rel_comps_below. rewrite join_comps_normal by reflexivity.
+        rewrite Ed, app_assoc. reflexivity. }
+    destruct D as (x & Gx & Dx). cbn zeta. rewrite Dx.
+    eapply triple_bind; [apply triple_op_bool; reflexivity|]. intros ex2 _.
+    destruct ex2; [apply triple_ret; auto|].
+    eapply triple_bind.
+    - apply triple_copy_dir; auto.
+      + rewrite good_path_app, Gnd, Gx. reflexivity.
+      + apply is_prefix_app.
+    - intros _ _. apply triple_ret; auto.
+  Qed.
+
+  Lemma triple_copy_chart_home_entry lc entry :
+    lc_ok lc -> triple (copy_chart_home_entry A lc entry) (fun _ => True).
+  Proof.
+    intros Hlc. unfold copy_chart_home_entry.
+    set (path := if String.eqb entry "" then "charts" else entry).
+    destruct (is_abs path); [apply triple_throw|].
+    eapply triple_bind.
+    - apply triple_copy_chart_home; auto. intros Hc. apply negb_false_iff in Hc.
+      apply cpath_eqb_eq in Hc. rewrite Hc. apply join_abs_name. reflexivity.
+    - intros lp _. apply triple_ret; auto.
+  Qed.
+
   Lemma triple_loc_pref lc kp : lc_ok lc -> triple (loc_pref orc A lc kp) (fun _ => True).
   Proof.
     intros Hlc. unfold loc_pref. destruct (fst kp).
     - apply triple_loc_file; auto.
     - apply triple_loc_file_source; auto.
     - apply triple_loc_k8s; auto.
+    - apply triple_copy_chart_home_entry; auto.
+    - apply triple_copy_chart_home_entry; auto.
   Qed.
 
   Lemma triple_loc_plugin_entry lc entry : lc_ok lc -> triple (loc_plugin_entry orc A lc entry) (fun _ => True).
@@ -768,19 +949,6 @@ Section Safety.
 
   Lemma join_abs_kust_name d n : In n kust_names -> join_abs d n = d ++ [n].
   Proof. intros H. apply join_abs_name. apply kust_name_good; auto. Qed.
-
-  Lemma triple_ldr_new lc path :
-    triple (ldr_new A lc path) (fun root => good_path root = true /\ is_prefix scope root = true).
-  Proof.
-    unfold ldr_new. destruct (String.eqb path ""); [apply triple_throw|].
-    eapply triple_bind; [apply triple_guard|]. intros _ _.
-    destruct (is_abs path); [apply triple_throw|].
-    eapply triple_bind; [apply triple_confirm_dir|]. intros root [G _].
-    destruct (cycle_with root (lc_root lc :: lc_anc lc)); [apply triple_throw|].
-    destruct (has_prefix_c root (a_scope A)) eqn:Hs; cbn [negb]; [|apply triple_throw].
-    destruct (has_prefix_c root (a_newdir A)); [apply triple_throw|].
-    apply triple_ret. split; auto.
-  Qed.
 
   Theorem triple_localize : forall fuel lc, lc_ok lc -> triple (localize orc A fuel lc) (fun _ => True).
   Proof.
@@ -861,6 +1029,23 @@ Section Safety.
     intros done _.
     eapply triple_bind; [apply triple_mapP; intros; apply triple_loc_generator; auto|]. intros cms _.
     eapply triple_bind; [apply triple_mapP; intros; apply triple_loc_generator; auto|]. intros secs _.
+    eapply triple_bind.
+    { apply triple_mapP. intros h. unfold loc_helm_infl.
+      eapply triple_bind; [apply triple_loc_file; auto|]. intros v _.
+      eapply triple_bind; [apply triple_copy_chart_home_entry; auto|]. intros d _. apply triple_ret; auto. }
+    intros hinfl _.
+    eapply triple_bind.
+    { apply triple_mapP. intros h. unfold loc_helm_chart.
+      eapply triple_bind; [apply triple_loc_file; auto|]. intros v _.
+      eapply triple_bind; [apply triple_mapP; intros; apply triple_loc_file; auto|]. intros vs _.
+      apply triple_ret; auto. }
+    intros hcharts _.
+    eapply triple_bind.
+    { instantiate (1 := fun _ => True). destruct (k_helmglobals k).
+      - eapply triple_bind; [apply triple_copy_chart_home_entry; auto|]. intros; apply triple_ret; auto.
+      - destruct (k_helmcharts k); [apply triple_ret; auto|].
+        eapply triple_bind; [apply triple_copy_chart_home_entry; auto|]. intros; apply triple_ret; auto. }
+    intros hglob _.
     eapply triple_bind; [apply triple_mapP; intros; apply triple_loc_file; auto|]. intros pats _.
     eapply triple_bind; [apply triple_mapP; intros; apply triple_loc_file; auto|]. intros p69 _.
     eapply triple_bind; [apply triple_mapP; intros; apply triple_loc_k8s; auto|]. intros psm _.
@@ -1314,6 +1499,7 @@ Proof.
   - destruct (fs_write (w_fs w) p c); cbn in *; auto. specialize (Hm eq_refl). discriminate.
   - unfold fs_remove_all in *. destruct (fs_find (w_fs w) p) as [|q e| |] eqn:F; cbn in *; auto.
     destruct (Hr eq_refl) as [->|?]; [cbn in F|]; discriminate.
+  - destruct (fs_find (w_fs w) p) as [|? [|?]| |]; reflexivity.
   - exfalso. eapply Hc; eauto.
 Qed.
 
